@@ -44,9 +44,9 @@ func runC18(c *Ctx) {
 	}
 	// tokenizer by role: callee of NewHostRule taking *string and returning string
 	var tok *ssa.Function
-	eachInstr(nhr, func(_ *ssa.BasicBlock, in ssa.Instruction) {
+	eachInstrG(c.P, nhr, func(_ *ssa.BasicBlock, in ssa.Instruction) {
 		if ci, ok := in.(ssa.CallInstruction); ok {
-			if cal := ci.Common().StaticCallee(); cal != nil && c.P.IsLibFunc(cal) && cal.Signature.Params().Len() == 1 && typeStr(cal.Signature.Params().At(0).Type()) == "*string" {
+			if cal := ci.Common().StaticCallee(); cal != nil && c.P.IsLibFunc(cal) && !c.P.IsNewHelper(cal) && cal.Signature.Params().Len() == 1 && typeStr(cal.Signature.Params().At(0).Type()) == "*string" {
 				tok = cal
 			}
 		}
